@@ -428,12 +428,12 @@ theorem befpFromRaw_u32 {raw : RawBefp} {p : Befp} (h : befpFromRaw raw = .ok p)
                 subst hr
                 exact shareWithProofFromRaw_u32 hx
 
-theorem befpVerifyShares_noPanic (H : HashFn) (dah : Dah) (axis : Axis) (index : Nat)
+theorem befpVerifyShares_noPanic (H : HashFn) (bindPos : Bool) (dah : Dah) (axis : Axis) (index : Nat)
     (hw : dah.rowRoots.length ≤ U16_MAX) (hrc : dah.rowRoots.length = dah.colRoots.length)
     (hidx : index < dah.rowRoots.length) :
     ∀ (shares : List (Option ShareWithProof)) (i : Nat), (∀ s, some s ∈ shares → U32 s.proof) →
       i + shares.length ≤ dah.rowRoots.length →
-      (befpVerifyShares (safeVerifyRange H) dah axis index shares i).isPanic = false := by
+      (befpVerifyShares (safeVerifyRange H) bindPos dah axis index shares i).isPanic = false := by
   intro shares
   induction shares with
   | nil => intro i _ _; rfl
@@ -447,21 +447,26 @@ theorem befpVerifyShares_noPanic (H : HashFn) (dah : Dah) (axis : Axis) (index :
       unfold befpVerifyShares
       have hi : i < dah.rowRoots.length := by simp at hlen; omega
       have himod : i % 65536 = i := Nat.mod_eq_of_lt (by unfold U16_MAX at hw; omega)
-      have hfin : ∀ root, ((ofNmt (safeVerifyRange H s.proof root [s.share] s.ns)).bind fun _ =>
-          befpVerifyShares (safeVerifyRange H) dah axis index rest (i + 1)).isPanic = false := by
-        intro root
-        apply bind_noPanic (ofNmt_noPanic (safeVerifyRange_ne_panic H s.proof (hu s List.mem_cons_self) _ _ _))
-        intro _ _
-        exact ih (i + 1) hrest hlen'
+      have hfin : ∀ (root : NsHash) (j : Nat),
+          (if (bindPos && s.proof.start != j) = true then Out.err
+           else (ofNmt (safeVerifyRange H s.proof root [s.share] s.ns)).bind fun _ =>
+            befpVerifyShares (safeVerifyRange H) bindPos dah axis index rest (i + 1)).isPanic = false := by
+        intro root j
+        split
+        · rfl
+        · apply bind_noPanic (ofNmt_noPanic (safeVerifyRange_ne_panic H s.proof (hu s List.mem_cons_self) _ _ _))
+          intro _ _
+          exact ih (i + 1) hrest hlen'
       have hr1 : dah.rowRoot? index = some dah.rowRoots[index] := List.getElem?_eq_getElem hidx
       have hr2 : dah.colRoot? index = some (dah.colRoots[index]'(by omega)) := List.getElem?_eq_getElem (by omega)
       have hr3 : dah.rowRoot? i = some dah.rowRoots[i] := List.getElem?_eq_getElem hi
       have hr4 : dah.colRoot? i = some (dah.colRoots[i]'(by omega)) := List.getElem?_eq_getElem (by omega)
       rw [himod]
-      cases axis <;> cases s.proofAxis <;> simp only [hr1, hr2, hr3, hr4] <;> exact hfin _
+      cases axis <;> cases s.proofAxis <;> simp only [hr1, hr2, hr3, hr4] <;> exact hfin _ _
 
-theorem befpPrefix_noPanic (H : HashFn) (p : Befp) (hu : BefpU32 p) (hh : Nat) (dah : Dah)
-    (hw : dah.rowRoots.length ≤ U16_MAX) : (befpPrefix (safeVerifyRange H) p hh dah).isPanic = false := by
+theorem befpPrefix_noPanic (H : HashFn) (bindPos capGuard : Bool) (p : Befp) (hu : BefpU32 p) (hh : Nat) (dah : Dah)
+    (hw : dah.rowRoots.length ≤ U16_MAX) :
+    (befpPrefix (safeVerifyRange H) bindPos capGuard p hh dah).isPanic = false := by
   unfold befpPrefix
   split
   · rfl
@@ -478,16 +483,18 @@ theorem befpPrefix_noPanic (H : HashFn) (p : Befp) (hu : BefpU32 p) (hh : Nat) (
         · rfl
         · split
           · rfl
-          · rename_i h1 h2 h3
-            apply bind_noPanic
-            · apply befpVerifyShares_noPanic H dah p.axis p.index hw hrc (by omega) p.shares 0 hu
-              simp only [ne_eq, Decidable.not_not] at h2
-              omega
-            · intro _ _; rfl
+          · split
+            · rfl
+            · rename_i h1 h2 h3 h4
+              apply bind_noPanic
+              · apply befpVerifyShares_noPanic H bindPos dah p.axis p.index hw hrc (by omega) p.shares 0 hu
+                simp only [ne_eq, Decidable.not_not] at h2
+                omega
+              · intro _ _; rfl
 
 /-- facts about a successful prefix -/
-theorem befpPrefix_ok {vr} {p : Befp} {hh : Nat} {dah : Dah} {rebuilt : List Bytes} {k : Nat}
-    (h : befpPrefix vr p hh dah = .ok (rebuilt, k)) :
+theorem befpPrefix_ok {vr} {bindPos capGuard : Bool} {p : Befp} {hh : Nat} {dah : Dah} {rebuilt : List Bytes} {k : Nat}
+    (h : befpPrefix vr bindPos capGuard p hh dah = .ok (rebuilt, k)) :
     rebuilt.length = dah.rowRoots.length ∧ k = dah.rowRoots.length / 2 ∧ p.index < dah.rowRoots.length ∧
     dah.rowRoots.length = dah.colRoots.length := by
   unfold befpPrefix at h
@@ -507,16 +514,18 @@ theorem befpPrefix_ok {vr} {p : Befp} {hh : Nat} {dah : Dah} {rebuilt : List Byt
           · cases h
           · split at h
             · cases h
-            · rename_i h1 h2 h3
-              cases hv : befpVerifyShares vr dah p.axis p.index p.shares 0 with
-              | err => simp [hv] at h
-              | panic s => simp [hv] at h
-              | ok u =>
-                simp only [hv, Out.ok.injEq, Prod.mk.injEq] at h
-                obtain ⟨e1, e2⟩ := h
-                subst e1; subst e2
-                simp only [ne_eq, Decidable.not_not] at h2
-                refine ⟨by simp [h2], rfl, by omega, hrc⟩
+            · split at h
+              · cases h
+              · rename_i h1 h2 h3 h4
+                cases hv : befpVerifyShares vr bindPos dah p.axis p.index p.shares 0 with
+                | err => simp [hv] at h
+                | panic s => simp [hv] at h
+                | ok u =>
+                  simp only [hv, Out.ok.injEq, Prod.mk.injEq] at h
+                  obtain ⟨e1, e2⟩ := h
+                  subst e1; subst e2
+                  simp only [ne_eq, Decidable.not_not] at h2
+                  refine ⟨by simp [h2], rfl, by omega, hrc⟩
 
 /-- what is assumed of leopard's transforms: they keep the number of shards and return shards of the
     common shard size -/
@@ -587,8 +596,8 @@ theorem leoEncode_ok_sizes {c : Codec} (hc : CodecShape c) {s r : List Bytes} {k
                 simp only [ne_eq, Decidable.not_not] at hmod
                 omega
 
-theorem befpLeafNs_cases (uf : Bool) (k n : Nat) (sh : Bytes) (h : NS_SIZE ≤ sh.length) :
-    (∃ o, befpLeafNs uf k n sh = .ok o) ∨ (uf = false ∧ befpLeafNs uf k n sh = .panic .befpUnwrap) := by
+theorem befpLeafNs_cases (uf io : Bool) (k n : Nat) (sh : Bytes) (h : NS_SIZE ≤ sh.length) :
+    (∃ o, befpLeafNs uf io k n sh = .ok o) ∨ (uf = false ∧ befpLeafNs uf io k n sh = .panic .befpUnwrap) := by
   unfold befpLeafNs
   split
   · have : ¬ sh.length < NS_SIZE := by omega
@@ -602,10 +611,10 @@ theorem befpLeafNs_cases (uf : Bool) (k n : Nat) (sh : Bytes) (h : NS_SIZE ≤ s
 
 /-- the rebuild loop can only panic at the `unwrap` (and not at all once that is fixed); the leaf hashes it
     returns are in namespace order -/
-theorem befpRebuild_ok (uf : Bool) (H : HashFn) (k : Nat) : ∀ (shares : List Bytes) (n : Nat) (hi : Bytes),
+theorem befpRebuild_ok (uf io : Bool) (H : HashFn) (k : Nat) : ∀ (shares : List Bytes) (n : Nat) (hi : Bytes),
     (∀ sh ∈ shares, NS_SIZE ≤ sh.length) →
-    (∀ t, befpRebuild uf H k shares n hi = .panic t → uf = false ∧ t = .befpUnwrap) ∧
-    (∀ hs, befpRebuild uf H k shares n hi = .ok (some hs) →
+    (∀ t, befpRebuild uf io H k shares n hi = .panic t → uf = false ∧ t = .befpUnwrap) ∧
+    (∀ hs, befpRebuild uf io H k shares n hi = .ok (some hs) →
       MonoA hs ∧ (∀ x, hs.head? = some x → leB hi x.minNs = true)) := by
   intro shares
   induction shares with
@@ -621,7 +630,7 @@ theorem befpRebuild_ok (uf : Bool) (H : HashFn) (k : Nat) : ∀ (shares : List B
     have hsh := hlen sh List.mem_cons_self
     have hrest : ∀ s ∈ rest, NS_SIZE ≤ s.length := fun s hs => hlen s (List.mem_cons_of_mem _ hs)
     unfold befpRebuild
-    rcases befpLeafNs_cases uf k n sh hsh with ⟨o, ho⟩ | ⟨huf, hp⟩
+    rcases befpLeafNs_cases uf io k n sh hsh with ⟨o, ho⟩ | ⟨huf, hp⟩
     · rw [ho]
       cases o with
       | none => exact ⟨(by intro t h; cases h), (by intro hs h; cases h)⟩
@@ -632,7 +641,7 @@ theorem befpRebuild_ok (uf : Bool) (H : HashFn) (k : Nat) : ∀ (shares : List B
           exact ⟨(by intro t h; cases h), (by intro hs h; cases h)⟩
         · simp only [hlt, Bool.false_eq_true, ↓reduceIte]
           obtain ⟨ih1, ih2⟩ := ih (n + 1) ns hrest
-          cases hr : befpRebuild uf H k rest (n + 1) ns with
+          cases hr : befpRebuild uf io H k rest (n + 1) ns with
           | err => exact ⟨(by intro t h; cases h), (by intro hs h; cases h)⟩
           | panic s =>
             simp only
@@ -689,9 +698,10 @@ theorem befpSuffix_sites (uf : Bool) (H : HashFn) (c : Codec) (hc : CodecShape c
     | ok full =>
       simp only
       have hsz := leoEncode_ok_sizes hc he
-      obtain ⟨hb1, hb2⟩ := befpRebuild_ok uf H k full 0 (List.replicate NS_SIZE 0)
+      generalize (if uf = true then decide (p.index < k) else true) = io
+      obtain ⟨hb1, hb2⟩ := befpRebuild_ok uf io H k full 0 (List.replicate NS_SIZE 0)
         (fun sh hsh => by have := hsz sh hsh; unfold NS_SIZE; omega)
-      cases hrb : befpRebuild uf H k full 0 (List.replicate NS_SIZE 0) with
+      cases hrb : befpRebuild uf io H k full 0 (List.replicate NS_SIZE 0) with
       | panic s =>
         intro h
         simp only [Out.bind, Out.panic.injEq] at h
